@@ -149,11 +149,16 @@ class VCSStrategyGit(VCSStrategy):
         # The final element may be an empty string. Filter it.
         submodule_entries = [
             entry
-            for entry in result.stdout.decode("utf-8").split("\0")
+            for entry in os.fsdecode(result.stdout).split("\0")
             if entry
         ]
         # Each entry looks a little like 'submodule.submodule.path\nmy_path'.
-        return {Path(entry.splitlines()[1]) for entry in submodule_entries}
+        # A key without a value has no second line, and names no path.
+        return {
+            Path(lines[1])
+            for entry in submodule_entries
+            if len(lines := entry.splitlines()) > 1
+        }
 
     def is_ignored(self, path: StrPath) -> bool:
         path = relative_from_root(path, self.root)
